@@ -889,18 +889,184 @@ func (a *vC03Abs) expect(p *vC03Pkt) int {
 
 // ---------------------------------------------------------------- in-memory transport
 type vC03Pipe struct {
-	r *bytes.Buffer
-	w *bytes.Buffer
+	r   *bytes.Buffer
+	w   *bytes.Buffer
+	max int // at most max bytes per Read (0: no limit)
 }
 
-func (p *vC03Pipe) Read(b []byte) (int, error)  { return p.r.Read(b) }
+func (p *vC03Pipe) Read(b []byte) (int, error) {
+	if p.max > 0 && len(b) > p.max {
+		b = b[:p.max]
+	}
+	return p.r.Read(b)
+}
 func (p *vC03Pipe) Write(b []byte) (int, error) { return p.w.Write(b) }
 
 func vC03Pair() (a, b *Protocol) {
-	ab, ba := &bytes.Buffer{}, &bytes.Buffer{}
-	var rwa io.ReadWriter = &vC03Pipe{r: ba, w: ab}
-	var rwb io.ReadWriter = &vC03Pipe{r: ab, w: ba}
-	return NewProtocol(rwa), NewProtocol(rwb)
+	a, b, _, _ = vC03PairX(0)
+	return a, b
+}
+
+// two endpoints; ab carries the bytes from a to b, ba the other direction; every transport
+// read delivers at most max bytes
+func vC03PairX(max int) (a, b *Protocol, ab, ba *bytes.Buffer) {
+	ab, ba = &bytes.Buffer{}, &bytes.Buffer{}
+	var rwa io.ReadWriter = &vC03Pipe{r: ba, w: ab, max: max}
+	var rwb io.ReadWriter = &vC03Pipe{r: ab, w: ba, max: max}
+	return NewProtocol(rwa), NewProtocol(rwb), ab, ba
+}
+
+// error class of ReadMessage (the chunk layer's classes, Model/RtmpChunk.v)
+func vC03ReadErrCode(err error) int {
+	s := err.Error()
+	switch {
+	case strings.Contains(s, "unexpected EOF"):
+		return 2
+	case strings.Contains(s, "EOF"):
+		return 1
+	case strings.Contains(s, "For fresh chunk"):
+		return 3
+	case strings.Contains(s, "For exists chunk"):
+		return 4
+	case strings.Contains(s, "Chunk message size"):
+		return 5
+	case strings.Contains(s, "decode message"):
+		return 6
+	}
+	return 98
+}
+
+// case (5 sid k ((dir (pkt...))...)): a conversation through the real chunk layer.  Each burst
+// is written with WritePacket by one endpoint; its wire bytes are part of the observation; the
+// peer then runs ReadMessage + DecodeMessage once per packet, the transport handing over at
+// most k bytes per read.
+func vC03RunConv(c vSx, res *vC03Res) {
+	if len(c.l) != 4 || !c.l[1].isInt() || !c.l[2].isInt() || !c.l[3].isList() {
+		res.obs = vL(vZ(-1))
+		return
+	}
+	res.hist = "conversation"
+	sid, k := c.l[1].i64(), c.l[2].int()
+	a, b, ab, ba := vC03PairX(k)
+	ends := []*Protocol{a, b}
+	bufs := []*bytes.Buffer{ab, ba}
+	abs := []*vC03Abs{{}, {}}
+	var out []vSx
+	responses, resized := 0, false
+	for bi, bs := range c.l[3].l {
+		if !bs.isList() || len(bs.l) != 2 || !bs.l[0].isInt() || !bs.l[1].isList() {
+			res.obs = vL(vZ(-1))
+			return
+		}
+		dir := 0
+		if bs.l[0].i64() != 0 {
+			dir = 1
+		}
+		snd, rcv, buf := ends[dir], ends[1-dir], bufs[dir]
+		var pkts []*vC03Pkt
+		for _, ps := range bs.l[1].l {
+			p, ok := vC03PktFromSx(ps)
+			if !ok {
+				res.obs = vL(vZ(-1))
+				return
+			}
+			pkts = append(pkts, p)
+		}
+		var flags []vSx
+		var wants [][]byte
+		for _, p := range pkts {
+			sp := vC03BuildPkt(p)
+			want, _, _ := vC03MarshalPk(sp)
+			wants = append(wants, want)
+			if werr := snd.WritePacket(sp, int(sid)); werr != nil {
+				flags = append(flags, vI(7))
+				res.bad("wire", fmt.Sprintf("burst %d: WritePacket failed: %v", bi, werr))
+			} else {
+				flags = append(flags, vI(0))
+				abs[dir].sent(p)
+			}
+			if p.kind == 7 {
+				resized = true
+			}
+		}
+		wire := append([]byte{}, buf.Bytes()...)
+		var outs []vSx
+		var readObs vSx
+		readFailed := false
+		for j, p := range pkts {
+			var m *Message
+			var rerr error
+			rpan := false
+			func() {
+				defer func() {
+					if r := recover(); r != nil {
+						rpan = true
+					}
+				}()
+				m, rerr = rcv.ReadMessage()
+			}()
+			if rpan {
+				readObs, readFailed = vPanicObs(), true
+				res.bad("no-panic", fmt.Sprintf("burst %d: ReadMessage panicked", bi))
+				break
+			}
+			if rerr != nil {
+				readObs, readFailed = vErr(vC03ReadErrCode(rerr)), true
+				res.bad("wire", fmt.Sprintf("burst %d packet %d: ReadMessage failed: %v", bi, j, rerr))
+				break
+			}
+			sp := vC03BuildPkt(p)
+			if m.MessageType != sp.Type() || !bytes.Equal(m.Payload, wants[j]) {
+				res.bad("wire", fmt.Sprintf("burst %d packet %d: arrived with type %d and %d payload bytes, sent type %d, %d bytes", bi, j, m.MessageType, len(m.Payload), sp.Type(), len(wants[j])))
+			}
+			// the message stream id the caller gave and the chunk stream the packet type prefers
+			// (2 for protocol control, 3 for commands over the connection)
+			wantCid := chunkID(3)
+			if p.kind >= 7 {
+				wantCid = 2
+			}
+			if m.streamID != uint32(sid) || m.betterCid != wantCid || m.Timestamp != 0 {
+				res.bad("wire", fmt.Sprintf("burst %d packet %d: arrived on stream %d chunk stream %d timestamp %d, written for stream %d chunk stream %d", bi, j, m.streamID, m.betterCid, m.Timestamp, uint32(sid), wantCid))
+			}
+			pk, err, pan := vC03Decode(rcv, m.MessageType, m.Payload)
+			outs = append(outs, vC03ObsPkt(pk, err, pan))
+			if p.kind <= 6 && (string(p.name) == "_result" || string(p.name) == "_error") {
+				responses++
+			}
+			exp := abs[1-dir].expect(p)
+			switch {
+			case pan:
+				res.bad("no-panic", fmt.Sprintf("burst %d packet %d: DecodeMessage panicked", bi, j))
+			case exp == -1:
+				if err == nil {
+					res.bad("transaction", fmt.Sprintf("burst %d packet %d: response %q without an outstanding request decoded as %T", bi, j, p.name, pk))
+				}
+			case exp >= 0:
+				if err != nil {
+					res.bad("end-to-end", fmt.Sprintf("burst %d packet %d: well-formed %s did not arrive: %v", bi, j, vC03KindName(p.kind), err))
+				} else if got := vC03DumpPkt(pk); got.kind != exp || !vC03PktEqual(got, vC03Canon(p)) {
+					res.bad("end-to-end", fmt.Sprintf("burst %d packet %d: sent %s, arrived %s", bi, j, vC03PktSx(vC03Canon(p)), vC03PktSx(got)))
+				}
+			}
+		}
+		if !readFailed {
+			readObs = vOk(vLs(outs))
+			if buf.Len() != 0 || rcv.r.Buffered() != 0 {
+				res.bad("wire", fmt.Sprintf("burst %d: %d bytes of the burst were not consumed", bi, buf.Len()+rcv.r.Buffered()))
+			}
+		}
+		out = append(out, vL(vB(wire), vLs(flags), readObs, vC03TxSx(a), vC03TxSx(b)))
+		for i := 0; i < 2; i++ {
+			if d := vC03CmpTable(ends[i], abs[i]); d != "" {
+				res.bad("transaction", fmt.Sprintf("burst %d: endpoint %d: %s", bi, i, d))
+			}
+		}
+		if readFailed {
+			break
+		}
+	}
+	res.nontrivial = responses >= 1 || resized
+	res.obs = vOk(vLs(out))
 }
 
 // ---------------------------------------------------------------- running a case
@@ -1535,6 +1701,9 @@ func vC03Run(c vSx) *vC03Res {
 	case 4:
 		vC03RunExpectMessage(c, res)
 		return res
+	case 5:
+		vC03RunConv(c, res)
+		return res
 	}
 	res.obs = vL(vZ(-1))
 	return res
@@ -2008,7 +2177,70 @@ func vC03GenExpectMessage(r *vRng) vSx {
 	return vL(vZ(4), vLs(ts), vLs(ms))
 }
 
+// a conversation: bursts in both directions, responses mostly answering the peer's requests,
+// chunk sizes announced in between, payloads from a few bytes to several hundred chunks
+func vC03GenConv(r *vRng) vSx {
+	pending := [][]*vC03Pkt{nil, nil}
+	var bursts []vSx
+	dir := r.intn(2)
+	for bi, nb := 0, r.rng(1, 7); bi < nb; bi++ {
+		if r.chance(3, 4) {
+			dir = 1 - dir
+		}
+		var ps []vSx
+		for j, np := 0, r.rng(1, 4); j < np; j++ {
+			var p *vC03Pkt
+			switch x := r.intn(14); {
+			case x == 0:
+				p = vC03GenPkt(r, 0, !r.chance(1, 10), false)
+			case x <= 2:
+				p = vC03GenPkt(r, 3, true, false)
+				p.tid = vC03GenTid(r)
+			case x <= 6 && len(pending[1-dir]) > 0:
+				// answer a request of the peer
+				q := pending[1-dir][r.intn(len(pending[1-dir]))]
+				p = vC03GenPkt(r, map[int]int{0: 1, 3: 4}[q.kind], true, false)
+				p.tid = q.tid
+			case x == 7:
+				p = vC03GenPkt(r, r.pickInt(1, 4), true, false) // usually unmatched
+				p.tid = vC03GenTid(r)
+			case x == 8:
+				p = &vC03Pkt{kind: 7, n: uint32(r.pickU64(1, 2, 100, 128, 4096, 65536, 0x7fffffff))}
+			case x == 9:
+				p = vC03GenPkt(r, r.pickInt(8, 9, 10), true, false)
+			default:
+				p = vC03GenPkt(r, r.pickInt(2, 5, 6), true, false)
+				switch r.intn(8) {
+				case 0:
+					p.name = append([]byte("n"), bytes.Repeat([]byte("x"), r.rng(100, 700))...)
+				case 1:
+					if p.kind == 5 || p.kind == 6 {
+						p.sname = bytes.Repeat([]byte("s"), r.rng(120, 5000))
+					}
+				case 2:
+					if r.chance(1, 6) && (p.kind == 5 || p.kind == 6) {
+						p.sname = vC03Long65535
+					}
+				}
+			}
+			if p.kind == 0 || p.kind == 3 {
+				pending[dir] = append(pending[dir], p)
+			}
+			ps = append(ps, vC03PktSx(p))
+		}
+		bursts = append(bursts, vL(vI(dir), vLs(ps)))
+	}
+	sid := int64(r.pickInt(0, 1, 1, 5, 256))
+	if r.chance(1, 10) {
+		sid = 0xffffffff
+	}
+	return vL(vZ(5), vZ(sid), vI(r.pickInt(0, 1, 2, 7, 64, 128, 4096)), vLs(bursts))
+}
+
 func vC03Gen(r *vRng) vSx {
+	if r.chance(1, 8) {
+		return vC03GenConv(r)
+	}
 	switch r.intn(10) {
 	case 0, 1, 2, 3:
 		return vC03GenCodec(r)
